@@ -150,7 +150,12 @@ def blocked_all(R, ro, rule):
                 "runnable, is continued, and unwrap() computes the missing future by a nested synchronous evaluation (a batch is flushed early)"
                 % (k_, not any(not b for b in (bad_env or ())), ", ".join("computed" if b else "uncomputed" for b in (bad_env or ()))))
     loops = [n for n in ast.walk(ib.node) if isinstance(n, ast.For) and is_deps(n.iter) and isinstance(n.target, ast.Name)]
-    R.need(len(loops) == 1, "idiom: AsyncTask.is_blocked is neither a loop over self._dependencies nor any(...)")
+    if len(loops) != 1:
+        R.violation(rule, key + ":examines-all", R.site(ib),
+                    "is_blocked() does not go through all of self._dependencies (no loop over the list, no any(...)): a task that still waits for one of the futures it "
+                    "yielded counts as runnable as soon as the one it looks at is done - it is continued early, unwrap() computes the stragglers by nested synchronous "
+                    "evaluation, and a failure is delivered while siblings are still pending")
+        return
     loop = loops[0]
     lv = loop.target.id
     head = kit.one(cfg.nodes_for(loop), "loop header")
@@ -1678,3 +1683,85 @@ def dependency_elements_typed(R, ro, rule):
                                     "ErrorFuture) and %s does not define it: AttributeError when the task completes - under the profiling option only, so a "
                                     "computation that succeeds without the option fails with it" % (m.qualname, v, a.attr, "FutureBase" if not guards else "/".join(c.name for c in guards)))
     R.check(n >= 1, rule, "dependency-element-reads", "asynq/async_task.py", "%d reads from dependency elements examined" % n, "no read from dependency elements found")
+
+
+def caught_exception_attributes(R, rule):
+    """What a handler reads from a caught exception of a class the package defines (`exc.result` of AsyncTaskResult) is an attribute
+    that class's constructor sets: when the payload attribute is renamed, a reader that was not updated raises AttributeError instead
+    of delivering the result - in the one code path it sits on."""
+    n = 0
+    for f in R.repo.all_functions():
+        if f.module.name.startswith("tests"):
+            continue
+        for h in [x for x in ast.walk(f.node) if isinstance(x, ast.ExceptHandler) and x.name and x.type is not None]:
+            tys = [h.type] if not isinstance(h.type, ast.Tuple) else list(h.type.elts)
+            classes = []
+            for t in tys:
+                d = q.dotted(t)
+                r = R.repo.resolve_dotted(f.module, d) if d else None
+                if r and r[0] == "class":
+                    classes.append(r[1])
+            if not classes or len(classes) != len(tys):
+                continue        # (a builtin among the caught classes: its own attributes are fine)
+            for a in [x for b in h.body for x in ast.walk(b) if isinstance(x, ast.Attribute) and isinstance(x.value, ast.Name) and x.value.id == h.name and isinstance(x.ctx, ast.Load)]:
+                if a.attr.startswith("__") or a.attr in ("args", "with_traceback", "add_note"):
+                    continue
+                n += 1
+                ok = all(a.attr in c.fields() or c.find_method(a.attr) is not None or any(recv == "self" and attr == a.attr for m in c.methods.values() for recv, attr, nd in q.attr_stores(m.node))
+                         for c in classes)
+                R.check(ok, rule, "%s:%s.%s" % (f.qualname, h.name, a.attr), R.site(f, a),
+                        "`%s.%s` is set by the constructor of %s" % (h.name, a.attr, "/".join(c.name for c in classes)),
+                        "%s reads `%s.%s` from a caught %s, whose constructor sets no such attribute: AttributeError instead of the result on this path only (a "
+                        "renamed payload attribute with one stale reader)" % (f.qualname, h.name, a.attr, "/".join(c.name for c in classes)))
+    R.check(n >= 2, rule, "caught-exception-attributes", "asynq/", "%d attribute reads from caught package exceptions examined" % n, "fewer than two such reads found")
+
+
+def stamp_trusted(R, rule, fi, target_nodes, err, want_type, what):
+    """The bookkeeping attributes _type_ / _traceback are asynq's (qcore's) stamp only when they hold what prepare_for_reraise() puts
+    there.  A consumer that hands them on - generator.throw(type, value, tb), qcore's reraise(), which does
+    `raise error.with_traceback(error._traceback)` whenever `_type_` exists - is reached only when the traceback was tested to be None or a
+    traceback object (or, for reraise(), when `_type_` is absent), and, for the three-argument throw, `_type_` to be a class.  An
+    exception class that uses the names itself (a discriminator, remote traceback text) is delivered as it is; otherwise the consumer
+    raises TypeError / AttributeError *instead of* the error, while error() reports the real one."""
+    cfg = cfg_of(fi)
+    # locals holding the error's _traceback / _type_
+    holders = {"_traceback": set([err + "._traceback"]), "_type_": set([err + "._type_"])}
+    for n in q.scope_nodes(fi.node):
+        if isinstance(n, ast.Assign) and len(n.targets) == 1 and isinstance(n.targets[0], ast.Name):
+            v = q.src(n.value).replace('"', "'")
+            for a in ("_traceback", "_type_"):
+                if v == "%s.%s" % (err, a) or v.startswith("getattr(%s, '%s'" % (err, a)):
+                    holders[a].add(n.targets[0].id)
+
+    def tb_ok(nd):
+        if nd.kind != "test":
+            return None
+        k, s_, pos = q.atom_test(nd.ast)
+        if k == "isnone" and s_ in holders["_traceback"]:
+            return "T" if pos else "F"
+        if k == "isinstance" and isinstance(s_, tuple) and s_[0] in holders["_traceback"] and "TracebackType" in str(s_[1]):
+            return "T" if pos else "F"
+        if not want_type and k == "call" and s_ == "hasattr" and q.src(nd.ast if not isinstance(nd.ast, ast.UnaryOp) else nd.ast.operand).replace('"', "'") \
+                == "hasattr(%s, '_type_')" % err:
+            return "F" if pos else "T"
+        return None
+
+    def type_ok(nd):
+        if nd.kind != "test":
+            return None
+        k, s_, pos = q.atom_test(nd.ast)
+        if k == "isinstance" and isinstance(s_, tuple) and s_[0] in holders["_type_"] and s_[1] == "type":
+            return "T" if pos else "F"
+        return None
+    p1 = kit.path_avoiding_guard(cfg, target_nodes, tb_ok, N, dead_ok=True)
+    R.check(p1 is None, rule, "%s:stamp-trusted:traceback" % fi.qualname, R.site(fi, target_nodes[0].ast if target_nodes[0].ast is not None else None),
+            "%s is reached only when the error's _traceback is None or a traceback object%s" % (what, "" if want_type else " (or it has no _type_)"),
+            "%s trusts any _type_/_traceback attributes found on the error: an exception class that has such attributes of its own (a wire-format "
+            "discriminator, the text of a remote traceback) is not delivered - TypeError ('__traceback__ must be a traceback or None') or "
+            "AttributeError is raised in its place, while error() reports the real error" % what, cfg.fmt_path(p1) if p1 else None)
+    if want_type:
+        p2 = kit.path_avoiding_guard(cfg, target_nodes, type_ok, N, dead_ok=True)
+        R.check(p2 is None, rule, "%s:stamp-trusted:type" % fi.qualname, R.site(fi, target_nodes[0].ast if target_nodes[0].ast is not None else None),
+                "%s is reached only when the error's _type_ is a class" % what,
+                "%s passes on whatever the error has under _type_: for an exception class with a _type_ attribute of its own (a string) "
+                "generator.throw raises TypeError and the awaiting task fails with that instead of the error" % what, cfg.fmt_path(p2) if p2 else None)
